@@ -4,12 +4,13 @@ Every operation of every class is run on generated inputs and its raw result is 
 executable spec of Model/C02Spec.v applied to the denotation of the operand literal (den_dense / den_sp / den_k /
 den_t / den_sum).  For the kernels with an algorithm model (Model/C02Dense.v, Model/C02Sparse.v) the model's output is
 compared too (raw data / raw weights and factors).  Mode designations (dims / exclude_dims, any order, |dims| or N multiplicands) are resolved
-on the harness side by `designate`, independently of tt_dimscheck."""
+on the harness side by `designate`, independently of tt_dimscheck, for the spec; in addition the raw request is handed to
+impl_ttv_req / impl_ttm_req (Model/C02Modes.v), which call the GENERATED tt_dimscheck, and their result is compared with pyttb's."""
 import itertools
 import math
 from fractions import Fraction
 
-from vcheck import Case, gz, gzlist, gnlist, gnmat, gq
+from vcheck import Case, gz, gzlist, gnlist, gnmat, gq, gopt
 import tgen
 from props.c02_util import (X_dense, X_sparse, X_k, X_t, X_sum, shape_of, pdense, pfun, all_subs, mk_obj, mat_np,
                             obs_any, obs_ints, obs_pdense, gden, gobs, gmatch, gvecs, gmat, designate,
@@ -17,12 +18,12 @@ from props.c02_util import (X_dense, X_sparse, X_k, X_t, X_sum, shape_of, pdense
 
 PROP = "C02"
 LEVEL = "proof"
-GEN_UNITS = []
+GEN_UNITS = ["GenUtils"]      # Props/C02.v states C02_dimscheck_align / C02_ttv_dense_req / C02_ttm_dense_req over the generated tt_dimscheck
 COQ_TARGETS = ["Props/C02.vo", "Model/C02Harness.vo", "Model/Harness.vo"]
 THEOREM_FILES = ["Props/C02.v"]
 COQ_IMPORTS = ("From Coq Require Import List ZArith Bool Arith QArith Qcanon.\n"
                "From PV Require Import Base.Index Base.Perm Base.Sum Np.Array Model.Sparse Model.Repr Model.Harness "
-               "Model.C02Spec Model.C02Dense Model.C02Sparse Model.C02Harness.\n")
+               "Np.NpZ Gen.GenUtils Model.C02Spec Model.C02Dense Model.C02Sparse Model.C02Modes Model.C02Kruskal Model.C02SpKernels Model.C02Absorb Model.C02Harness.\n")
 RULE = ("mttkrp/mttkrps additionally on 4-, 5- and 6-way tensors (<= ~200 entries) with skewed and balanced shapes so that every "
         "split index of min_split and Khatri-Rao products of >= 2 matrices occur in each helper; dims orders include cyclic "
         "(non-involutive) ones; otherwise shapes with <= 4 modes / <= 72 entries incl. distinct sizes (2,3,4), singleton modes and 1-way; every non-empty mode "
@@ -31,23 +32,28 @@ RULE = ("mttkrp/mttkrps additionally on 4-, 5- and 6-way tensors (<= ~200 entrie
         "sides of the 50% switch; Kruskal MTTKRP operands with non-unit weights. non-trivial = more than one cell and a "
         "nonzero entry; distinct = distinct (op, arguments)")
 EXPLANATION = ("Correspondence compares pyttb's raw result with spec_op applied to the denotation of the operand literal "
-               "(exact integers in Z; the norm in Qc). Theorems in Props/C02.v state impl_op = spec_op for all shapes and "
-               "all values of a commutative ring for the kernels listed there.")
+               "(exact integers in Z; the norm in Qc) and, for every kernel with an algorithm model, with impl_op as well. Theorems in "
+               "Props/C02.v state impl_op = spec_op for all shapes and all values of a commutative ring: dense ttv / ttm (single and list form, "
+               "request resolved by the GENERATED tt_dimscheck), dense mttkrp (all branches), Kruskal-operand weight absorption, "
+               "dense / sparse / Kruskal innerprod and norm, sparse ttv (one mode) and mttkrp, Kruskal ttv (one mode) and mttkrp, linearity over sums.")
 CORRESPONDENCE_ONLY = [
-    "dense mttkrp branches n = N-1 and middle (algorithm model in Model/C02Dense.v compared with pyttb and with the spec; theorem only for n = 0)",
-    "dense mttkrp with a Kruskal operand (weights absorbed by get_mttkrp_factors), dense mttkrps",
-    "dense ttm list form (sequence of the proved single-mode products), dense ttt, contract, collapse, scale, mask, ttsv",
-    "sparse ttv, ttm, mttkrp, contract, collapse, scale, mask (sparse innerprod and norm are proved)",
-    "Kruskal ttv over several modes (single mode proved), Kruskal mttkrp, innerprod, norm, mask",
+    "dense mttkrps (algorithm with min_split / mttv_left / mttv_mid: no algorithm model; compared entry-wise with spec_mttkrp for every mode on 4-, 5-, 6-way tensors covering every split index)",
+    "dense ttt, contract, collapse, scale, mask, ttsv (via tenmat; spec only)",
+    "sparse ttv over several modes and the choice of the result container at the 50% switch (single mode proved; both sides of the switch denote the same array by C02_sparse_switch), sparse ttm, contract, collapse, scale, mask",
+    "Kruskal ttv over several modes (single mode proved), Kruskal innerprod with a dense / sparse / Tucker operand (via the operand's ttv), Kruskal mask",
     "Tucker ttv, ttm, mttkrp, innerprod, norm, reconstruct",
-    "sumtensor innerprod, mttkrp, ttv",
-    "mode designation (dims / exclude_dims / multiplicand count): resolved by the harness independently of tt_dimscheck; the "
-    "alignment theorems over the generated tt_dimscheck are C17_dimscheck_dims / C17_alignment / C17_dimscheck_exclude",
+    "sumtensor operations as executed part by part (linearity of the defining sums is proved: C02_sum_linear_*)",
+    "spec_ttv / spec_ttm_list are evaluated by the correspondence in the CALLER's order of (mode, multiplicand) pairs; the theorems C02_ttv_dense_req / "
+    "C02_ttm_dense_req are stated over the sorted modes with the caller's association `attach` (invariance of spec_ttv under a joint permutation of "
+    "(dims, vectors) is not proved; both forms are compared with pyttb on every generated request)",
 ]
 ASSUMPTIONS = [
     "numpy transpose / F-order reshape / matmul / fancy indexing behave as the tabulate-style definitions of Np/Array.v and Model/C02Dense.v",
     "floating point: all generated values are small integers, so float64 results are exact; the norm is compared to 1e-9 relative in Qc",
     "sptensor operands fed to the proved sparse kernels are well formed (distinct in-bounds subscripts), as produced by the generator",
+    "accumarray / sptensor.from_aggregator with the sum reducer return, for each output subscript, the sum of the values with that subscript "
+    "(contract proved for C03's model: from_aggregator_correct); the sparse ttv / mttkrp models are written against that contract",
+    "tt_dimscheck is the text translated into Gen/GenUtils.v on this run (translator trusted; re-checked by the C17 correspondence stream)",
 ]
 
 SHAPES_Q = [[3], [1], [2, 3], [3, 2], [1, 3], [3, 3], [2, 3, 4], [4, 3, 2], [2, 1, 3], [2, 2, 2], [3, 2, 1, 4], [2, 3, 2, 2]]
@@ -413,6 +419,11 @@ def coq_check(c, o):
             sd, sv = [dims[j] for j in order], [vs[j] for j in order]
             lit = tgen.gdense(ob["shape"], ob["data"]) if ob["k"] == "dense" else tgen.gdense([], [ob["v"]])
             e += f" && dense_eqb (zimpl_ttv_dense {tgen.gdense(X['shape'], X['data'])} {gnlist(sd)} {gvecs(sv)}) {lit}"
+            # the raw request as written by the caller, resolved by the GENERATED tt_dimscheck (Model/C02Modes.v)
+            e += (f" && zres_is (zimpl_ttv_req {tgen.gdense(X['shape'], X['data'])} {gopt(a['dims'], gzlist)} "
+                  f"{gopt(a['excl'], gzlist)} {gvecs(a['vecs'])}) {lit}")
+        if X["rep"] == "sparse" and len(dims) == 1:          # coordinate-list model of sptensor.ttv (one mode), either side of the 50% switch
+            e += " && " + gmatch(rs, f"(zimpl_ttv_sp1 {tgen.gsparse(X['shape'], X['subs'], X['vals'])} {dims[0]} {gzlist(vs[0])})", ob)
         if X["rep"] == "k" and len(dims) == 1 and ob["k"] == "ktensor" and obs_ints(ob):
             e += (f" && k_eqb (zimpl_ttv_k1 {tgen.gktensor(X['weights'], X['factors'])} {dims[0]} {gzlist(vs[0])}) "
                   f"{tgen.gktensor(ob['weights'], ob['factors'])}")
@@ -433,6 +444,9 @@ def coq_check(c, o):
             for n_, U in sorted(prs, key=lambda p: p[0]):        # pyttb multiplies mode by mode in ascending mode order
                 m = f"(zimpl_ttm_dense {m} {n_} {gmat(U)} {len(U[0]) if a['tr'] else len(U)} {trb})"
             e += f" && dense_eqb {m} {tgen.gdense(ob['shape'], ob['data'])}"
+            ms = "[" + "; ".join(f"({len(U[0]) if a['tr'] else len(U)}%nat, {gmat(U)})" for U in a["mats"]) + "]"
+            e += (f" && zres_is (zimpl_ttm_req {tgen.gdense(X['shape'], X['data'])} {gopt(a['dims'], gzlist)} "
+                  f"{gopt(a['excl'], gzlist)} {ms} {trb}) {tgen.gdense(ob['shape'], ob['data'])}")
         return e
     if c.op in ("mttkrp", "mttkrps"):
         U = a["U"]
@@ -445,13 +459,15 @@ def coq_check(c, o):
             return gmatch([shp[n], R], f, obn)
         if c.op == "mttkrp":
             e = one(a["n"], ob)
+            # the factor list the kernels receive: get_mttkrp_factors absorbs a Kruskal operand's weights (Model/C02Absorb.v)
+            UsK = Us if U["weights"] is None else f"(zget_mttkrp_factors_k {lam} {Us} {a['n']})"
             if X["rep"] == "dense" and ob["k"] == "array" and obs_ints(ob):
-                fs = [[list(r) for r in f] for f in U["factors"]]
-                if U["weights"] is not None:          # get_mttkrp_factors: weights absorbed into factor 1 (n = 0) or factor 0
-                    k = 1 if a["n"] == 0 else 0
-                    fs[k] = [[x * w for x, w in zip(r, U["weights"])] for r in fs[k]]
                 e += (f" && dense_eqb (zimpl_mttkrp_dense {tgen.gdense(X['shape'], X['data'])} "
-                      f"[{'; '.join(gmat(f) for f in fs)}] {a['n']} {R}) {tgen.gdense(ob['shape'], ob['data'])}")
+                      f"{UsK} {a['n']} {R}) {tgen.gdense(ob['shape'], ob['data'])}")
+            if X["rep"] in ("sparse", "k"):
+                lit = (f"zimpl_mttkrp_sp {tgen.gsparse(X['shape'], X['subs'], X['vals'])}" if X["rep"] == "sparse"
+                       else f"zimpl_mttkrp_k {tgen.gktensor(X['weights'], X['factors'])}")
+                e += " && " + gmatch([shp[a["n"]], R], f"(fun i_ => {lit} {UsK} {a['n']} (nth 0 i_ 0%nat) (nth 1 i_ 0%nat))", ob)
             return e
         if ob["k"] != "list" or len(ob["items"]) != N:
             return "false"
@@ -467,6 +483,8 @@ def coq_check(c, o):
         if reps in (("sparse", "dense"), ("dense", "sparse")):
             S, T = (X, Y) if reps[0] == "sparse" else (Y, X)
             e += f" && (zimpl_innerprod_sp_dense {tgen.gsparse(S['shape'], S['subs'], S['vals'])} {tgen.gdense(T['shape'], T['data'])} =? {gz(ob['v'])})%Z"
+        if reps == ("k", "k"):
+            e += f" && (zimpl_innerprod_kk {tgen.gktensor(X['weights'], X['factors'])} {tgen.gktensor(Y['weights'], Y['factors'])} =? {gz(ob['v'])})%Z"
         if X["rep"] == "dense" and a["Y"]["rep"] == "dense":
             e += (f" && (zimpl_innerprod_dense {tgen.gdense(X['shape'], X['data'])} "
                   f"{tgen.gdense(a['Y']['shape'], a['Y']['data'])} =? {gz(ob['v'])})%Z")
@@ -476,6 +494,8 @@ def coq_check(c, o):
         e = f"qclose tol9 (Qcmult {q} {q}) (Q2Qc (inject_Z (zsp_normsq {dX} {gnlist(shp)})))"
         if X["rep"] == "sparse":
             e += f" && qclose tol9 (Qcmult {q} {q}) (Q2Qc (inject_Z (zimpl_normsq_sp {tgen.gsparse(X['shape'], X['subs'], X['vals'])})))"
+        if X["rep"] == "k":
+            e += f" && qclose tol9 (Qcmult {q} {q}) (Q2Qc (inject_Z (zimpl_normsq_k {tgen.gktensor(X['weights'], X['factors'])})))"
         if X["rep"] == "dense":
             e += f" && qclose tol9 (Qcmult {q} {q}) (Q2Qc (inject_Z (zimpl_normsq_dense {tgen.gdense(X['shape'], X['data'])})))"
         return e
